@@ -187,7 +187,14 @@ func (s *Server) serve(ctx context.Context, listener net.Listener, handler Modbu
 			readTimeout:    s.ReadTimeout,
 			onErrorFunc:    onErrorFunc,
 		}
-		s.trackConn(c, true)
+		if !s.trackConn(c, true) {
+			// Shutdown was called while this connection was being accepted. Shutdown does not know about this
+			// connection and will not close it, so we must not start serving it.
+			if err := netConn.Close(); err != nil {
+				onErrorFunc(fmt.Errorf("connection.close error, err: %w", err))
+			}
+			return ErrServerClosed
+		}
 		go func(ctx context.Context, conn *connection) {
 			defer func() {
 				if rec := recover(); rec != nil {
@@ -224,7 +231,9 @@ func (oc *onceCloseListener) close() {
 	oc.closeErr = oc.Listener.Close()
 }
 
-func (s *Server) trackConn(c *connection, isAdd bool) {
+// trackConn adds or removes connection from active connections. Returns false when connection can not be added
+// because server has been shut down.
+func (s *Server) trackConn(c *connection, isAdd bool) bool {
 	// this is how http.Server does it
 	s.mu.Lock()
 	defer s.mu.Unlock()
@@ -233,6 +242,9 @@ func (s *Server) trackConn(c *connection, isAdd bool) {
 		s.activeConnections = make(map[*connection]struct{})
 	}
 	if isAdd {
+		if s.isShutdown.Load() {
+			return false
+		}
 		s.activeConnections[c] = struct{}{}
 		s.activeConnectionCount.Add(1)
 		verifPoint("track.add", c.conn, s.activeConnectionCount.Load())
@@ -241,6 +253,7 @@ func (s *Server) trackConn(c *connection, isAdd bool) {
 		s.activeConnectionCount.Add(-1)
 		verifPoint("track.remove", c.conn, s.activeConnectionCount.Load())
 	}
+	return true
 }
 
 func (c *connection) handle(ctx context.Context) {
